@@ -412,7 +412,7 @@ def r08_7(ctx):
     p = main[0]
     v = p.value
     ctx.check("compile_sub_routine returns SubRoutine(name, ret_type, params, compiled body)", isinstance(v, ast.Call) and call_name(v) == "SubRoutine" and [U(a)[:40] for a in v.args][:1] == ["name"] and U(v.args[1]) == "get_value_type_by_c_type(return_type)"
-              and U(v.args[2]) == "params" and "transform(" in U(v.args[3]) and "self.parser.parse(body)" in U(v.args[3]),
+              and len(v.args) == 4 and "transform(" in U(v.args[3]) and "self.parser.parse(body)" in U(v.args[3]),
               "SubRoutine(name, get_value_type_by_c_type(return_type), params, transformer.transform(self.parser.parse(body)))", U(v)[:160], w)
     loops = [e for e in p.events if e.kind == "loop"]
     ok = False
@@ -426,7 +426,9 @@ def r08_7(ctx):
     ctx.check("each `<type> <id>` string becomes Parameter(id, type), in order", ok, "for param in parameter: params.append(Parameter(pname, get_value_type_by_c_type(ptype)))", "loop shape differs" if not ok else "ok", w)
     tcalls = [e.node for e in p.events if e.kind == "call" and call_name(e.node) == "RZILTransformer"]
     kw = {k.arg: U(k.value) for k in tcalls[0].keywords} if tcalls else {}
-    ctx.check("routine transformer receives registry, parameters and return type", kw.get("sub_routines") == "self.sub_routines" and kw.get("parameters") == "params" and kw.get("return_type") == "get_value_type_by_c_type(return_type)",
+    # (the parameter list is the list the loop above fills: the same expression as the routine's third argument)
+    ctx.check("routine transformer receives registry, parameters and return type", kw.get("sub_routines") == "self.sub_routines" and kw.get("parameters") == (U(v.args[2]) if isinstance(v, ast.Call) and len(v.args) > 2 else None)
+              and kw.get("return_type") == "get_value_type_by_c_type(return_type)",
               "RZILTransformer(arch, sub_routines=self.sub_routines, parameters=params, return_type=ret_type)", str(kw), w)
     stores = [(U(e.node), U(e.extra)) for e in p.events if e.kind == "store"]
     ctx.check("routine transformer shares the caller's macro table", any(t.endswith(".macros") and v2 == "self.transformer.macros" for t, v2 in stores), "transformer.macros = self.transformer.macros", str(stores)[:120], w)
